@@ -104,7 +104,8 @@ func c02Program(r *vfRand, e *c02Env, n int) []vfPkt {
 		p := vfPkt{ID: base + uint32(i)*7919}
 		switch x := r.Intn(100); {
 		case x < 10:
-			p.Type, p.Path, p.Pflags = rfOpen, anyPath(), uint32(r.Intn(64))
+			// read-only, write-only and read-write handles must all be common (wrong-kind requests on them matter)
+			p.Type, p.Path, p.Pflags = rfOpen, anyPath(), vfPick(r, []uint32{rfRead_, rfRead_, rfWrite_, rfRead_ | rfWrite_, rfWrite_ | rfCreat_, uint32(r.Intn(64))})
 		case x < 14:
 			p.Type, p.Path = rfOpendir, anyPath()
 		case x < 40:
